@@ -482,7 +482,38 @@ impl VectorizedHashTable {
         false
     }
 
+    /// Direct-address mode indexes `heads` by key value, which only the Int64
+    /// probe loops do. A narrower integer probe key (an equi-join between an
+    /// INTEGER and a BIGINT column) must be widened to Int64 so it takes those
+    /// loops; the hash-mode code further down would index the direct-address
+    /// `heads` with a hash. `Some(None)` means the probe key can never equal
+    /// an Int64 build key, i.e. there are no matches.
+    fn direct_probe_keys(&self, probe_key_arrays: &[ArrayRef]) -> Option<Option<Vec<ArrayRef>>> {
+        use arrow::datatypes::DataType;
+        self.direct?;
+        let key = probe_key_arrays.first()?;
+        match key.data_type() {
+            DataType::Int64 => None,
+            DataType::Int8
+            | DataType::Int16
+            | DataType::Int32
+            | DataType::UInt8
+            | DataType::UInt16
+            | DataType::UInt32 => Some(
+                arrow::compute::cast(key, &DataType::Int64)
+                    .ok()
+                    .map(|a| vec![a]),
+            ),
+            _ => Some(None),
+        }
+    }
+
     fn probe_batch(&self, probe_key_arrays: &[ArrayRef], num_rows: usize) -> Vec<(u32, u32, u32)> {
+        match self.direct_probe_keys(probe_key_arrays) {
+            Some(Some(widened)) => return self.probe_batch(&widened, num_rows),
+            Some(None) => return Vec::new(),
+            None => {}
+        }
         let mut matches = Vec::new();
 
         // Direct-address probe: bounds check + slot load; chain entries are
@@ -625,6 +656,11 @@ impl VectorizedHashTable {
     /// Probe for Semi/Anti joins: returns a boolean mask per probe row indicating match.
     #[inline]
     fn probe_batch_semi(&self, probe_key_arrays: &[ArrayRef], num_rows: usize) -> Vec<bool> {
+        match self.direct_probe_keys(probe_key_arrays) {
+            Some(Some(widened)) => return self.probe_batch_semi(&widened, num_rows),
+            Some(None) => return vec![false; num_rows],
+            None => {}
+        }
         let mut matched = vec![false; num_rows];
 
         // Direct-address: membership = slot occupancy, no hash/compare.
